@@ -3,7 +3,7 @@
 # in a scratch worktree with its own build cache and evidence directory (/repo, .cache and evidence/ stay untouched,
 # so this can run next to other checks).
 id=$1; d=$(realpath $2); shift 2
-./tools/seed_confirm.sh $id $d 2>&1 | grep RESULT | cut -c1-80 | tee -a /tmp/seed-confirm-4.log
+./tools/seed_confirm.sh $id $d 2>&1 | grep RESULT | cut -c1-80 | tee -a /tmp/seed-confirm-5.log
 wt=/tmp/wtc-try${SLOT:-}
 if [ ! -d $wt ]; then git -C /repo worktree add -q --detach $wt HEAD || exit 9; fi
 git -C $wt checkout -q --detach $(git -C /repo rev-parse HEAD) && git -C $wt checkout -q -- . || exit 9
